@@ -25,6 +25,7 @@ import (
 )
 
 type kase struct {
+	Config  string `json:"config"`
 	Prefix  int    `json:"prefix_blocks"`
 	Sibling int    `json:"sibling"`
 	Block   string `json:"block"`
@@ -34,6 +35,9 @@ var siblingNames = []string{"S0[G->E]", "S1[A->D,G->C]", "S2[G->E;8x work;B buri
 
 // heavyBits has about eight times the work of treex.Bits[0].
 const heavyBits = 0x1f001fff
+
+// mvccKeyList is the record family "key list of a version" of the mvcc plugin.
+const mvccKeyList = ".-mvcc-.m.versionkl."
 
 func siblingTxs(e *lidx.Env, i int) []*types.Transaction {
 	if i != 1 {
@@ -53,16 +57,24 @@ func hashesOf(cfg *types.Chain33Config, blocks ...*types.Block) (bh, sh, th [][]
 	return
 }
 
+var (
+	r      *vx.Run
+	replay *kase
+	item   int
+	debug  = os.Getenv("C14_DEBUG") != ""
+)
+
 func main() {
-	r := vx.Start("C14", "model_checking")
+	r = vx.Start("C14", "model_checking")
 	clog.SetLogLevel("crit")
 	r.QuietStderr()
-	r.Rule = "chain = 12-block trunk + k prefix blocks (k = 0,1,2) + block B from the alphabet (coins transfer to a known / never-seen / own address, several receivers, same pair twice, sender that is also receiver, transfer failing for lack of balance, none, manage by the super manager and without privilege, group of two succeeding and failing, mixtures; 1-3 transactions) x sibling S in {disjoint addresses, overlapping addresses incl. the never-seen one}; a fresh real node connects prefix and B, then receives the heavier S (reorganisation disconnects B and connects S); oracle: every key of the blockchain database outside hash-addressed block storage and the sequence log, and every public local query, equal to a node that received prefix and S only. state = (k, sibling, B, step); distinct = (B, k, sibling, which index families B had changed) classes"
+	r.Rule = "configuration in {mvcc plugin on, off} (txindex, addrindex, addrfeeindex, fee, stat always on) x chain = 12-block trunk + k prefix blocks (k = 0,1,2) + block B from the alphabet (coins transfer to a known / never-seen / own address, several receivers, same pair twice, sender that is also receiver, receiver that spends in the same block, transfer failing for lack of balance, none, manage Modify by the super manager, manage Apply (local table with rollback log), group of two succeeding and failing, mixtures; 1-3 transactions) x how B is removed in {lighter B replaced by a sibling S on disjoint addresses, by a sibling on overlapping addresses incl. the never-seen one, B buried under one more block and both replaced by a much heavier S}; a fresh real node connects prefix and B, then receives S (reorganisation disconnects B and connects S); oracle: every key of the blockchain database outside hash-addressed block storage and the sequence log, and every public local query, equal to a node that received prefix and S only. state = (configuration, k, removal, B); distinct = (state, index families B had changed) classes"
 	r.Assume = []string{
 		"hash-addressed block storage (CHAIN-, TD:) and the sequence log (Seq:, HashToSeq:, LastSequence) legitimately keep the disconnected block and are not compared",
-		"a record left behind that only holds a zero counter and that no listed query can tell from an absent record is counted and noted, not reported",
+		"records left behind that no listed query can tell from an absent record are counted and noted, not reported: a counter record holding zero, and the mvcc plugin's key list of a removed version (rewritten by the next block of that height before anything reads it)",
+		"with the mvcc plugin on ([exec] enableMVCC=true) the executor reads state through the local DB while local reads are disabled during Exec, so balances on that configuration are odd but deterministic; the configuration is kept because it is the only way to exercise AddMVCC/DelMVCC, and every block is also run with the plugin off",
+		"the solo miner is kept idle (poll interval far above the run time), otherwise it re-mines the transactions a reorganisation returns to the pool when a case is stalled for a second",
 	}
-	var replay *kase
 	if raw, ok := r.Replaying(); ok {
 		replay = &kase{}
 		if err := json.Unmarshal(raw, replay); err != nil {
@@ -70,24 +82,49 @@ func main() {
 			r.Finish()
 		}
 	} else if r.Fork(8) {
-		r.Floors["executions"] = 60
-		r.Floors["distinct"] = 30
-		r.Floors["families_changed_by_B"] = 6
+		r.Floors["executions"] = 100
+		r.Floors["distinct"] = 60
+		r.Floors["families_changed_by_B"] = 8
+		r.Floors["queries_changed_by_B"] = 8
+		r.Floors["receipt_kinds"] = 4
 		r.Finish()
 	}
-	env, err := lidx.NewEnv(lidx.Options{})
+	all := []int{0, 1, 2}
+	// mvcc plugin on (falls back to off when the tree cannot run blocks with it)
+	envOn, err := lidx.NewEnv(lidx.Options{})
 	if err != nil {
 		fmt.Println("HARNESS-ERROR", err)
 		r.Note("harness error: %v", err)
 		r.Finish()
 	}
-	defer env.P.Close()
-	if env.MVCCNote != "" {
-		r.Note("%s", env.MVCCNote)
+	if envOn.MVCCNote != "" {
+		r.Note("%s", envOn.MVCCNote)
 		r.Note("multi-version state is therefore not exercised in this run (the other plugins are)")
 	}
-	r.Extra["mvcc_plugin_on"] = env.MVCC
-	cfg := env.Cfg
+	r.Extra["mvcc_plugin_exercised"] = envOn.MVCC
+	if envOn.MVCC {
+		run(envOn, "mvcc-on", all)
+		envOn.P.Close()
+		envOff, err := lidx.NewEnv(lidx.Options{NoMVCC: true})
+		if err != nil {
+			fmt.Println("HARNESS-ERROR", err)
+			r.Note("harness error: %v", err)
+			r.Finish()
+		}
+		sib := all
+		if r.Quick() {
+			sib = []int{1, 2}
+		}
+		run(envOff, "mvcc-off", sib)
+		envOff.P.Close()
+	} else {
+		run(envOn, "mvcc-off", all)
+		envOn.P.Close()
+	}
+	r.Finish()
+}
+
+func run(env *lidx.Env, cfgName string, siblings []int) {
 	// prefix blocks, connected on the producer
 	prefix := []*types.Block{}
 	ptxs := [][]*types.Transaction{
@@ -116,16 +153,15 @@ func main() {
 	addrs := append([]string{}, lidx.Addrs[:]...)
 	addrs = append(addrs, address.ExecAddress("none"), address.ExecAddress("manage"), address.ExecAddress("coins"))
 	specs := lidx.Alphabet()
-	item := 0
 	for k := 0; k <= 2; k++ {
-		for si := range siblingNames {
+		for _, si := range siblings {
 			F := forkAt(k)
 			// work of this shard in this (k, sibling) group
 			var mine []lidx.Spec
 			for _, sp := range specs {
 				item++
 				if replay != nil {
-					if replay.Prefix == k && replay.Sibling == si && replay.Block == sp.Name {
+					if replay.Config == cfgName && replay.Prefix == k && replay.Sibling == si && replay.Block == sp.Name {
 						mine = append(mine, sp)
 					}
 				} else if r.Mine(item) {
@@ -159,157 +195,154 @@ func main() {
 				if r.Expired("cases") {
 					break
 				}
-				kc := kase{Prefix: k, Sibling: si, Block: sp.Name}
-				name := fmt.Sprintf("prefix=%d sibling=%s B=%s", k, siblingNames[si], sp.Name)
-				B, err := env.Make(F, sp.Txs(env), treex.Bits[0])
-				if err != nil {
-					r.Note("%s: block could not be produced: %v", name, err)
-					r.Count("blocks_not_producible", 1)
-					continue
-				}
-				if len(B.Txs) == 0 {
-					r.Note("%s: no transaction survived production", name)
-					r.Count("blocks_not_producible", 1)
-					continue
-				}
-				blocks := append(append([]*types.Block{env.Tip()}, prefix[:k]...), B, S)
-				bh, sh, th := hashesOf(cfg, blocks...)
-				probe := lidx.Probe{Addrs: addrs, Txs: th, Blocks: bh, States: sh, Manage: []string{lidx.ManageKey}}
-				n := env.Fresh()
-				for _, p := range prefix[:k] {
-					if err := n.Deliver(vnode.Broadcast, p, "peer"); err != nil {
-						r.Note("%s: prefix block refused: %v", name, err)
-					}
-				}
-				before := lidx.LocalDump(n)
-				viewBefore := lidx.LocalView(n, env, probe)
-				if err := n.Deliver(vnode.Broadcast, B, "peer"); err != nil {
-					r.Note("%s: B refused: %v", name, err)
-					r.Count("blocks_refused", 1)
-					n.Close()
-					n.Forget()
-					continue
-				}
-				if lh, _ := n.Chain.ProcGetLastHeaderMsg(); lh == nil || !bytes.Equal(lh.Hash, B.Hash(cfg)) {
-					r.Note("%s: B is not the tip after its delivery", name)
-					n.Close()
-					n.Forget()
-					continue
-				}
-				failedTo := map[string]int64{}
-				if d, err := n.Chain.GetBlock(B.Height); err == nil && len(d.Receipts) == len(d.Block.Txs) {
-					for i, tx := range d.Block.Txs {
-						r.Seen("receipt_kinds", fmt.Sprintf("%s ty=%d", tx.Execer, d.Receipts[i].Ty))
-						var act cty.CoinsAction
-						if string(tx.Execer) == "coins" && d.Receipts[i].Ty != types.ExecOk && types.Decode(tx.Payload, &act) == nil && act.GetTransfer() != nil {
-							failedTo[tx.GetRealToAddr()] += act.GetTransfer().Amount
-						}
-					}
-				}
-				withB := lidx.LocalDump(n)
-				viewWithB := lidx.LocalView(n, env, probe)
-				// what B changed (vacuity guard and the distinct class)
-				fams := map[string]bool{}
-				for _, d := range lidx.DiffDump(before, withB) {
-					fams[d.Family] = true
-					r.Seen("families_changed_by_B", d.Family)
-				}
-				qchanged := map[string]bool{}
-				for _, d := range viewWithB.Diff(viewBefore, 1000) {
-					qchanged[lidx.QueryClass(strings.SplitN(d, ":", 2)[0])] = true
-				}
-				for q := range qchanged {
-					r.Seen("queries_changed_by_B", q)
-				}
-				if si == 2 {
-					// bury B under a filler block produced and connected on the subject itself
-					T, err := vnode.MakeBlock(n, B, []*types.Transaction{env.Transfer(lidx.G, lidx.E, 55)}, treex.Bits[0], 0)
-					if err == nil {
-						err = n.Deliver(vnode.Broadcast, T, "peer")
-					}
-					if err != nil || n.Chain.GetBlockHeight() != B.Height+1 {
-						r.Note("%s: filler block on top of B failed: %v", name, err)
-						n.Close()
-						n.Forget()
-						continue
-					}
-					_, _, tth := hashesOf(cfg, T)
-					probe.Txs = append(probe.Txs, tth...)
-					probe.Blocks = append(probe.Blocks, T.Hash(cfg))
-					probe.States = append(probe.States, T.StateHash)
-				}
-				if err := n.Deliver(vnode.Broadcast, S, "peer"); err != nil {
-					r.Note("%s: sibling refused: %v", name, err)
-				}
-				if lh, _ := n.Chain.ProcGetLastHeaderMsg(); lh == nil || !bytes.Equal(lh.Hash, S.Hash(cfg)) {
-					r.Violate("no-reorganisation", name+": the heavier sibling did not become the tip", kc, nil)
-					n.Close()
-					n.Forget()
-					continue
-				}
-				after := lidx.LocalDump(n)
-				viewAfter := lidx.LocalView(n, env, probe)
-				viewRef := lidx.LocalView(ref, env, probe)
-				n.Close()
-				n.Forget()
-				r.Count("executions", 1)
-				r.Count("transitions", int64(k+2))
-				r.Seen("states", name)
-				var fl []string
-				for f := range fams {
-					fl = append(fl, f)
-				}
-				sort.Strings(fl)
-				r.Seen("distinct", fmt.Sprintf("%s -> %s", name, strings.Join(fl, " ")))
-				if replay != nil || (os.Getenv("C14_DEBUG") != "" && len(viewAfter.Diff(viewRef, 1000)) > 0) {
-					fmt.Printf("REPLAY %s: B height %d txs %d, tip %d\n", name, B.Height, len(B.Txs), viewAfter["x"] == "")
-					for _, d := range lidx.DiffDump(refDump, after) {
-						fmt.Println("  raw:", d.String())
-					}
-					for _, d := range viewAfter.Diff(viewRef, 1000) {
-						fmt.Println("  query:", d)
-					}
-					fmt.Println("  heights", n.Chain.GetBlockHeight(), ref.Chain.GetBlockHeight(), n.ID, ref.ID)
-				}
-				// oracle 1: public queries
-				allq := viewAfter.Diff(viewRef, 1000)
-				shown := allq
-				if len(shown) > 8 {
-					shown = shown[:8]
-				}
-				for _, d := range allq {
-					key := strings.SplitN(d, ":", 2)[0]
-					fp := "query-not-restored:" + lidx.QueryClass(key)
-					if why := failedCredit(key, viewAfter[key], viewRef[key], addrs, failedTo); why != "" {
-						fp = why
-					}
-					r.Violate(fp, fmt.Sprintf("%s: after B was disconnected the query %s answers differently from a node that never saw B (%q vs %q); all differing: %s", name, key, clip(viewAfter[key]), clip(viewRef[key]), strings.Join(shown, "; ")), kc, nil)
-				}
-				// oracle 2: raw local-index records
-				for _, d := range lidx.DiffDump(refDump, after) {
-					if d.Zero() {
-						r.Count("zero_counter_records_left_behind", 1)
-						r.Seen("zero_counter_families", d.Family)
-						if len(allq) == 0 {
-							r.Note("raw residue (counted, not reported): after %s a zero-valued record stays under %s where the reference node has none; none of the listed queries can tell it from an absent record", sp.Name, d.Family)
-						}
-						continue
-					}
-					fp := "record-not-restored:" + d.Family + ":" + d.Kind
-					if strings.HasPrefix(d.Key, "LODB-coins-Addr:") {
-						if why := failedCreditRaw(strings.TrimPrefix(d.Key, "LODB-coins-Addr:"), d.Got, d.Ref, failedTo); why != "" {
-							fp = why
-						}
-					}
-					r.Violate(fp, fmt.Sprintf("%s: after B was disconnected the blockchain database differs from a node that never saw B: %s", name, d), kc, nil)
-				}
-				r.SampleN(6, map[string]interface{}{"case": kc, "families_changed_by_B": fl, "txs_in_B": len(B.Txs)})
+				one(env, cfgName, k, si, sp, F, S, prefix[:k], ref, refDump, addrs)
 			}
 			ref.Close()
 			ref.Forget()
 		}
 	}
-	r.Finish()
+}
+
+func one(env *lidx.Env, cfgName string, k, si int, sp lidx.Spec, F, S *types.Block, prefix []*types.Block, ref *vnode.Node, refDump map[string]string, addrs []string) {
+	cfg := env.Cfg
+	kc := kase{Config: cfgName, Prefix: k, Sibling: si, Block: sp.Name}
+	name := fmt.Sprintf("%s prefix=%d removal=%s B=%s", cfgName, k, siblingNames[si], sp.Name)
+	B, err := env.Make(F, sp.Txs(env), treex.Bits[0])
+	if err != nil || len(B.Txs) == 0 {
+		r.Note("%s: block could not be produced: %v", name, err)
+		r.Count("blocks_not_producible", 1)
+		return
+	}
+	blocks := append(append([]*types.Block{env.Tip()}, prefix...), B, S)
+	bh, sh, th := hashesOf(cfg, blocks...)
+	probe := lidx.Probe{Addrs: addrs, Txs: th, Blocks: bh, States: sh, Manage: []string{lidx.ManageKey}}
+	n := env.Fresh()
+	defer func() {
+		n.Close()
+		n.Forget()
+	}()
+	for _, p := range prefix {
+		if err := n.Deliver(vnode.Broadcast, p, "peer"); err != nil {
+			r.Note("%s: prefix block refused: %v", name, err)
+		}
+	}
+	before := lidx.LocalDump(n)
+	viewBefore := lidx.LocalView(n, env, probe)
+	if err := n.Deliver(vnode.Broadcast, B, "peer"); err != nil {
+		r.Note("%s: B refused: %v", name, err)
+		r.Count("blocks_refused", 1)
+		return
+	}
+	if lh, _ := n.Chain.ProcGetLastHeaderMsg(); lh == nil || !bytes.Equal(lh.Hash, B.Hash(cfg)) {
+		r.Note("%s: B is not the tip after its delivery", name)
+		r.Count("blocks_refused", 1)
+		return
+	}
+	// amounts of failed coins transfers per receiver (to recognise one known defect class)
+	failedTo := map[string]int64{}
+	if d, err := n.Chain.GetBlock(B.Height); err == nil && len(d.Receipts) == len(d.Block.Txs) {
+		for i, tx := range d.Block.Txs {
+			r.Seen("receipt_kinds", fmt.Sprintf("%s ty=%d", tx.Execer, d.Receipts[i].Ty))
+			var act cty.CoinsAction
+			if string(tx.Execer) == "coins" && d.Receipts[i].Ty != types.ExecOk && types.Decode(tx.Payload, &act) == nil && act.GetTransfer() != nil {
+				failedTo[tx.GetRealToAddr()] += act.GetTransfer().Amount
+			}
+		}
+	}
+	withB := lidx.LocalDump(n)
+	viewWithB := lidx.LocalView(n, env, probe)
+	// what B changed (vacuity guard and the distinct class)
+	fams := map[string]bool{}
+	for _, d := range lidx.DiffDump(before, withB) {
+		fams[d.Family] = true
+		r.Seen("families_changed_by_B", d.Family)
+	}
+	for _, d := range viewWithB.Diff(viewBefore, 1000) {
+		r.Seen("queries_changed_by_B", lidx.QueryClass(strings.SplitN(d, ":", 2)[0]))
+	}
+	if si == 2 {
+		// bury B under a filler block produced and connected on the subject itself
+		T, err := vnode.MakeBlock(n, B, []*types.Transaction{env.Transfer(lidx.G, lidx.E, 55)}, treex.Bits[0], 0)
+		if err == nil {
+			err = n.Deliver(vnode.Broadcast, T, "peer")
+		}
+		if err != nil || n.Chain.GetBlockHeight() != B.Height+1 {
+			r.Note("%s: filler block on top of B failed: %v", name, err)
+			return
+		}
+		_, _, tth := hashesOf(cfg, T)
+		probe.Txs = append(probe.Txs, tth...)
+		probe.Blocks = append(probe.Blocks, T.Hash(cfg))
+		probe.States = append(probe.States, T.StateHash)
+	}
+	if err := n.Deliver(vnode.Broadcast, S, "peer"); err != nil {
+		r.Note("%s: sibling refused: %v", name, err)
+	}
+	if lh, _ := n.Chain.ProcGetLastHeaderMsg(); lh == nil || !bytes.Equal(lh.Hash, S.Hash(cfg)) {
+		r.Violate("no-reorganisation", name+": the heavier sibling did not become the tip", kc, nil)
+		return
+	}
+	after := lidx.LocalDump(n)
+	viewAfter := lidx.LocalView(n, env, probe)
+	viewRef := lidx.LocalView(ref, env, probe)
+	r.Count("executions", 1)
+	r.Count("transitions", int64(k+2))
+	r.Seen("states", name)
+	var fl []string
+	for f := range fams {
+		fl = append(fl, f)
+	}
+	sort.Strings(fl)
+	r.Seen("distinct", fmt.Sprintf("%s -> %s", name, strings.Join(fl, " ")))
+	allq := viewAfter.Diff(viewRef, 1000)
+	raw := lidx.DiffDump(refDump, after)
+	if replay != nil || (debug && len(allq)+len(raw) > 0) {
+		fmt.Printf("CASE %s: B at height %d with %d txs\n", name, B.Height, len(B.Txs))
+		for _, d := range raw {
+			fmt.Println("  record:", d.String())
+		}
+		for _, d := range allq {
+			key := strings.SplitN(d, ":", 2)[0]
+			fmt.Printf("  query: %s (%q vs %q)\n", d, clip(viewAfter[key]), clip(viewRef[key]))
+		}
+	}
+	// oracle 1: public queries
+	shown := allq
+	if len(shown) > 8 {
+		shown = shown[:8]
+	}
+	for _, d := range allq {
+		key := strings.SplitN(d, ":", 2)[0]
+		fp := "query-not-restored:" + lidx.QueryClass(key)
+		if why := failedCredit(key, viewAfter[key], viewRef[key], addrs, failedTo); why != "" {
+			fp = why
+		}
+		r.Violate(fp, fmt.Sprintf("[%s] %s: after B was disconnected the query %s answers differently from a node that never saw B (%q vs %q); all differing: %s", fp, name, key, clip(viewAfter[key]), clip(viewRef[key]), strings.Join(shown, "; ")), kc, nil)
+	}
+	// oracle 2: raw local-index records
+	for _, d := range raw {
+		if d.Zero() {
+			r.Count("zero_counter_records_left_behind", 1)
+			r.Seen("zero_counter_families", d.Family)
+			if len(allq) == 0 {
+				r.Note("raw residue (counted, not reported): after %s a zero-valued record stays under %s where the reference node has none; none of the listed queries can tell it from an absent record", sp.Name, d.Family)
+			}
+			continue
+		}
+		if d.Kind == "extra" && strings.HasPrefix(d.Key, mvccKeyList) {
+			r.Count("mvcc_keylists_of_removed_versions_left_behind", 1)
+			r.Note("raw residue (counted, not reported): the mvcc key list %q of the removed version stays behind; it is rewritten before it can be read again and no multi-version read looks at it", mvccKeyList+"<version>")
+			continue
+		}
+		fp := "record-not-restored:" + d.Family + ":" + d.Kind
+		if strings.HasPrefix(d.Key, "LODB-coins-Addr:") {
+			if why := failedCreditRaw(strings.TrimPrefix(d.Key, "LODB-coins-Addr:"), d.Got, d.Ref, failedTo); why != "" {
+				fp = why
+			}
+		}
+		r.Violate(fp, fmt.Sprintf("[%s] %s: after B was disconnected the blockchain database differs from a node that never saw B: %s", fp, name, d), kc, nil)
+	}
+	r.SampleN(6, map[string]interface{}{"case": kc, "families_changed_by_B": fl, "txs_in_B": len(B.Txs)})
 }
 
 func clip(s string) string {
